@@ -841,7 +841,24 @@ impl Sim {
         if args.is_empty() || args.iter().any(|s| !self.live(*s)) {
             return StepOut::Skipped("operand slot empty");
         }
-        let his: Vec<HInfo> = args.iter().map(|s| self.info[*s].clone().unwrap()).collect();
+        if matches!(op, Op::Activation { act: Act::None, .. }) {
+            return StepOut::Skipped("no activation: the closure would return the clone itself");
+        }
+        let mut his: Vec<HInfo> = args.iter().map(|s| self.info[*s].clone().unwrap()).collect();
+        if let Op::Activation { detach: true, .. } = op {
+            // the closure receives an untracked clone: nothing is recorded and nothing flows back
+            for h in his.iter_mut() {
+                h.tracked = false;
+                h.keep = false;
+                h.explicit = Explicit::Untracked;
+            }
+        }
+        if matches!(op, Op::Stack { .. }) {
+            // a constructor (or no operation at all on a clone): the result carries no graph of its own here
+            for h in his.iter_mut() {
+                h.tracked = false;
+            }
+        }
         let dims: Vec<Vec<usize>> = his.iter().map(|h| self.g.nodes[h.node].dims.clone()).collect();
         let dref: Vec<&[usize]> = dims.iter().map(|d| &d[..]).collect();
         let od = match refmodel::out_dims(op, &dref) {
@@ -852,13 +869,13 @@ impl Sim {
             return StepOut::Skipped("too large");
         }
         let argv: Vec<(&[usize], &[f64])> = his.iter().map(|h| (&self.g.nodes[h.node].dims[..], &self.g.nodes[h.node].vals[..])).collect();
-        if self.cfg.regime == Regime::Smooth || !matches!(op, Op::Relu) {
+        if self.cfg.regime == Regime::Smooth || !matches!(op, Op::Relu | Op::Activation { act: Act::Relu, .. }) {
             if !refmodel::in_domain(op, &argv) {
                 self.cnt.domain_guard += 1;
                 return StepOut::Skipped("domain guard");
             }
         }
-        if matches!(op, Op::Relu) && argv[0].1.iter().any(|x| *x == 0.0) {
+        if matches!(op, Op::Relu | Op::Activation { act: Act::Relu, .. }) && argv[0].1.iter().any(|x| *x == 0.0) {
             self.cnt.domain_guard += 1;
             return StepOut::Skipped("relu kink");
         }
